@@ -31,7 +31,7 @@ public:
   bool Match(opentelemetry::nostd::string_view str) const noexcept override
   {
 #if OPENTELEMETRY_HAVE_WORKING_REGEX
-    return std::regex_match(str.data(), reg_key_);
+    return std::regex_match(str.data(), str.data() + str.size(), reg_key_);
 #else
     // TBD - Support regex match for GCC4.8
     OTEL_INTERNAL_LOG_ERROR(
